@@ -88,6 +88,19 @@ CLAIMED = {
          'trusted/untrusted logs only on the matching edge and only for Verifier::VerifyTrustPolicy; pass-through policies only in tabled functions; settings wiring of user/system anchors.'),
    note='Undecided: chain building and EKU evaluation inside OpenSSL; the rust_native backend is not compiled in this build configuration. Trusted base: ' + TRUSTED,
    design='5/C05'),
+ 'C10': dict(
+   technique='SCC enumeration over the resolved call graph with per-recursion guard dominance + type-resolved bounded-read rule + reachable-panic inventory',
+   text=('Decides four structural clauses: every input-driven recursion is tabled, passes depth+1 and is dominated by a comparison with a finite constant (or a visited-set test); '
+         'decompression and response-body reads are bounded by type (BoundedVecWriter / io::Take); explicit panic-family calls reachable from read/ingest entry points are an exact table.'),
+   note='Undecided: index/slice bounds and arithmetic-overflow panics, timing, total memory; recursion inside dependencies (serde/CBOR). Builder::old_from_archive unbounded ZipFile reads are tabled as an unreplayed candidate. Trusted base: ' + TRUSTED,
+   design='5/C10'),
+ 'C19': dict(
+   technique='recursion-guard dominance on the three ingredient traversals + failing-edge obligations for cyclic/over-deep/dangling graphs + result-discipline on callers',
+   text=('Decides termination structure (depth counter incremented at each recursive call and compared with MAX_INGREDIENT_DEPTH=200; path/visited membership tests dominate the recursive calls) '
+         'and rejection plumbing (over-deep returns Err; cycle logs a Failure and returns Err(CyclicIngredients) which callers propagate; dangling references log ingredient.manifest.missing as Failure; '
+         'cyclic update chains yield None).'),
+   note='Undecided: polynomial running time (shared sub-graph cost). Trusted base: ' + TRUSTED,
+   design='5/C19'),
 }
 
 NA_REASONS = {
